@@ -19,8 +19,9 @@
                                        same shape over fs.Glob names), MemDir.Close #1
       cmd/atlas/internal/cmdapi/cmdapi.go   resetFromEnv #1
       schemahcl/context.go             State.evalReferences #3, blockVars #1, bodyVars #1, typeRefs #1
-      schemahcl/extension.go           Resource.as #1 #2, registry.implementers #1, registry.lookup #1
-      schemahcl/schemahcl.go           State.EvalOptions #1 #3, State.copyBlock #1, State.toAttrs #1
+      schemahcl/extension.go           registry.implementers #1; Resource.as and registry.lookup no longer range over a
+                                       map after the fixes notes/fixes/C20-hcl-remain-order, -scan-type (models kept)
+      schemahcl/schemahcl.go           State.EvalOptions #1 (after fix C20-hcl-multifile-locals), State.copyBlock #1, State.toAttrs #1
       sql/internal/specutil/convert.go Scan #1 #2;  spec.go QualifyObjects #1 #2
       sql/postgres/inspect_oss.go      inspect.addIndexes #1;  migrate_oss.go state.alterEnum #1 *)
 From Coq Require Import List Bool Arith NArith.
@@ -135,16 +136,75 @@ Definition typeRefs {T : Type} (isroot : T -> bool) (attrs : list (bytes * list 
 Definition typeRefs_exists {T : Type} (isroot matches : T -> bool) (attrs : list (bytes * list T)) : bool :=
   existsb matches (typeRefs isroot attrs).
 
+(** ** State.evalReferences #3 with its closure [visit] (schemahcl/context.go)
+    nodes : map[addr]*node, a node = (addr, edges(), value()).  Here: an address is a [nat]; the table
+    [nodes] gives for every node the addresses its expression refers to, in the order edges()
+    delivered them (for data/typed blocks that is bodyVars: itself a map order); ctx.Variables
+    restricted to node addresses is a key-sorted list [ectx]; n.value() is [valueOf n ctx].
+
+      visit = func(n) error {
+        if visited[n] { return nil }            // never true: visited is read but never written
+        if progress[n] { return "cyclic reference" }
+        progress[n] = true
+        for _, e := range n.edges() { if nodes[addr(e)] == nil { continue }; if err := visit(nodes[addr(e)]); err != nil { return err } }
+        delete(progress, n)
+        v, err := n.value(); if err != nil { return err }
+        ctx.Variables[...] = v; return nil }
+      for _, n := range nodes { if typeref says n is not referenced { continue }; if err := visit(n); err != nil { return err } } *)
+Section EvalRefs.
+  Variable Val : Type.
+  Definition ectx := list (nat * Val).
+  Fixpoint mget (k : nat) (c : ectx) : option Val :=
+    match c with
+    | [] => None
+    | (k', v) :: r => if k =? k' then Some v else mget k r
+    end.
+  Fixpoint mset (k : nat) (v : Val) (c : ectx) : ectx :=
+    match c with
+    | [] => [(k, v)]
+    | (k', v') :: r => if k =? k' then (k, v) :: r else if k <? k' then (k, v) :: c else (k', v') :: mset k v r
+    end.
+
+  Variable valueOf : nat -> ectx -> option Val.      (* None = evaluation error *)
+  Variable nodes : deps_t.
+  Definition is_node (a : nat) : bool := mem a (map fst nodes).
+  Definition edges_of (n : nat) : list nat := filter is_node (deps_get n nodes).
+
+  Inductive eres := EOut | EErr | EOk (c : ectx).     (* out of fuel | error | nil *)
+
+  Fixpoint evisit_edges (visit1 : nat -> ectx -> eres) (es : list nat) (c : ectx) : eres :=
+    match es with
+    | [] => EOk c
+    | e :: r => match visit1 e c with EOk c' => evisit_edges visit1 r c' | x => x end
+    end.
+
+  Fixpoint evisit (fuel n : nat) (progress : list nat) (c : ectx) : eres :=
+    match fuel with
+    | 0 => EOut
+    | S f =>
+        if mem n progress then EErr
+        else match evisit_edges (fun e c => evisit f e (n :: progress) c) (edges_of n) c with
+             | EOk c' => match valueOf n c' with None => EErr | Some v => EOk (mset n v c') end
+             | x => x
+             end
+    end.
+
+  Definition evisit_fuel : nat := S (length nodes).
+
+  Variable referenced : nat -> bool.
+  Fixpoint evalReferences_loop (l : list (nat * list nat)) (c : ectx) : eres :=
+    match l with
+    | [] => EOk c
+    | r :: l' =>
+        if referenced (fst r)
+        then match evisit evisit_fuel (fst r) [] c with EOk c' => evalReferences_loop l' c' | x => x end
+        else evalReferences_loop l' c
+    end.
+End EvalRefs.
+
 Section Eval.
   (* evaluation context, node / block / file payloads *)
   Variables (Ctx Node Val : Type).
-
-  (* State.evalReferences #3: for _, n := range nodes { if !referenced(n) { continue }; visit(n) }
-     visit is the memoising DFS closure; it is kept abstract here (see OrderIndep: partial). *)
-  Variable referenced : Node -> bool.
-  Variable visit : Ctx -> Node -> option Ctx.
-  Definition evalReferences_nodes (nodes : list (bytes * Node)) (c : Ctx) : option Ctx :=
-    foldM (fun c n => if referenced (snd n) then visit c (snd n) else Some c) nodes c.
 
   (* blockVars #1: for name, def := range defs.children { vars[name] = f(name, def) or return err }
      the result map is kept as a key-sorted list *)
@@ -173,47 +233,57 @@ Section Eval.
   Definition toAttrs (hclAttrs : list (bytes * Node)) : option (list (bytes * Val)) :=
     option_map (isort fst bytes_ltb) (foldM toAttrs_step hclAttrs []).
 
-  (* State.EvalOptions #3: for name, bs := range metaBlocks { ... forEachBlocks ... } kept abstract *)
-  Variable forEachFile : Ctx -> bytes * Node -> option Ctx.
-  Definition EvalOptions_metaBlocks (metaBlocks : list (bytes * Node)) (c : Ctx) : option Ctx :=
-    foldM forEachFile metaBlocks c.
 End Eval.
 
-(* State.EvalOptions #1: for name, file := range files { fileNames = append(fileNames, name);
-   setInputVals; evalReferences(ctx, body) ... }; sort(fileNames).
+(* State.EvalOptions #1 (after fix C20-hcl-multifile-locals):
+     for name := range files { fileNames = append(fileNames, name) }; sort.Strings(fileNames)
+     for _, name := range fileNames { file := files[name]; setInputVals; evalReferences(ctx, body) ... }
+   (the for_each blocks of State.EvalOptions are visited through the same sorted fileNames: the
+   former map range #3 is gone).
    evalReferences of one file evaluates its locals in ctx: a local that refers to a local of
    ANOTHER file is not an edge of this file's graph (nodes[addr] == nil), so its expression is
-   evaluated against whatever earlier files left in ctx.
+   evaluated against whatever earlier files -- now: files with smaller names -- left in ctx.
    file = (locals it defines, locals of other files its locals refer to) *)
 Definition hclfile := (bytes * (list bytes * list bytes))%type.
 Definition evalfile_step (ctx : list bytes) (f : hclfile) : option (list bytes) :=
   if forallb (fun x => bmem x ctx) (snd (snd f)) then Some (fst (snd f) ++ ctx) else None.
 (* None = the diagnostic "Unknown variable: There is no variable named local"; Some = sorted fileNames *)
 Definition EvalOptions_files (files : list hclfile) : option (list bytes) :=
-  match foldM evalfile_step files [] with
+  let sorted := isort fst bytes_ltb files in
+  match foldM evalfile_step sorted [] with
   | None => None
-  | Some _ => Some (isort (fun x => x) bytes_ltb (map fst files))
+  | Some _ => Some (map fst sorted)
   end.
 
 (** * schemahcl/extension.go *)
 
-(* Resource.as #1: for attrName := range existingAttrs { extras.SetAttr(attr) }
-   SetAttr replaces the attribute with the same key or appends *)
+(* Extra.SetAttr replaces the attribute with the same key or appends *)
 Fixpoint SetAttr {V : Type} (a : bytes * V) (attrs : list (bytes * V)) : list (bytes * V) :=
   match attrs with
   | [] => [a]
   | b :: r => if bytes_eqb (fst a) (fst b) then a :: r else b :: SetAttr a r
   end.
-Definition as_extra_attrs {V : Type} (existingAttrs : list (bytes * V)) (extra : list (bytes * V)) : list (bytes * V) :=
-  fold_left (fun ex a => SetAttr a ex) existingAttrs extra.
+(* Resource.as, remainder attributes (after fix C20-hcl-remain-order): the map existingAttrs is
+   only looked up and deleted from, the iteration is over the slice r.Attrs:
+     for _, attr := range r.Attrs { if _, ok := existingAttrs[attr.K]; ok { extras.SetAttr(attr); delete(existingAttrs, attr.K) } }
+   existingAttrs (a set) is given as the list of its keys in any order *)
+Fixpoint as_extra_attrs {V : Type} (rattrs : list (bytes * V)) (existingAttrs : list bytes) (extra : list (bytes * V)) : list (bytes * V) :=
+  match rattrs with
+  | [] => extra
+  | a :: r =>
+      if bmem (fst a) existingAttrs
+      then as_extra_attrs r (filter (fun k => negb (bytes_eqb (fst a) k)) existingAttrs) (SetAttr a extra)
+      else as_extra_attrs r existingAttrs extra
+  end.
 
 (* childrenOfType(r, types...) *)
 Definition childrenOfType {C : Type} (ctype : C -> bytes) (children : list C) (types : list bytes) : list C :=
   flat_map (fun c => flat_map (fun t => if bytes_eqb (ctype c) t then [c] else []) types) children.
 
-(* Resource.as #2: for childType := range existingChildren { extras.Children = append(extras.Children, childrenOfType(r, childType)...) } *)
-Definition as_extra_children {C : Type} (ctype : C -> bytes) (children : list C) (existingChildren : list (bytes * unit)) (extra : list C) : list C :=
-  fold_left (fun ex t => ex ++ childrenOfType ctype children [fst t]) existingChildren extra.
+(* Resource.as, remainder blocks (after the fix):
+     for _, c := range r.Children { if _, ok := existingChildren[c.Type]; ok { extras.Children = append(extras.Children, c) } } *)
+Definition as_extra_children {C : Type} (ctype : C -> bytes) (children : list C) (existingChildren : list bytes) (extra : list C) : list C :=
+  extra ++ filter (fun c => bmem (ctype c) existingChildren) children.
 
 (* registry.implementers #1 and its two consumers in Resource.as: childrenOfType(r, impls...) *)
 Definition implementers {T : Type} (implements : T -> bool) (r : list (bytes * T)) : list bytes :=
@@ -221,9 +291,16 @@ Definition implementers {T : Type} (implements : T -> bool) (r : list (bytes * T
 Definition implementers_children {T C : Type} (implements : T -> bool) (ctype : C -> bytes) (children : list C) (r : list (bytes * T)) : list C :=
   childrenOfType ctype children (implementers implements r).
 
-(* registry.lookup #1: for k, v := range r { if TypeOf(ext) == TypeOf(v) { return k, true } } *)
-Definition lookup {T : Type} (same : T -> bool) (r : list (bytes * T)) : option bytes :=
-  option_map fst (find (fun e => same (snd e)) r).
+(* registry.lookup (after fix C20-hcl-scan-type): the names in registration order are a slice,
+   the map is only looked up:
+     for _, k := range extensionNames { if v, ok := r[k]; ok && TypeOf(ext) == TypeOf(v) { return k, true } } *)
+Fixpoint bassoc {T : Type} (k : bytes) (r : list (bytes * T)) : option T :=
+  match r with
+  | [] => None
+  | (k', v) :: r' => if bytes_eqb k k' then Some v else bassoc k r'
+  end.
+Definition lookup {T : Type} (same : T -> bool) (extensionNames : list bytes) (r : list (bytes * T)) : option bytes :=
+  find (fun k => match bassoc k r with Some v => same v | None => false end) extensionNames.
 
 (** * sql/internal/specutil *)
 
